@@ -105,3 +105,107 @@ def std_struct_config(rng, *, kinds, always=(), multi_p=0.3, lo=3, hi=60, mean=1
         kinds = kinds + gen.MULTI_MUTATORS
     cfg["weights"] = gen.swarm_weights(rng, kinds, always=always)
     return cfg
+
+
+# ------------------------------------------------------------------ model-based runs
+from egsim import model as M  # noqa: E402
+
+
+class ModelState(HistState):
+    def __init__(self, cfg):
+        super().__init__(cfg)
+        self.model = M.Model()
+        self.gen = gen.StructGen(cfg)
+        self.pending_setup = None
+
+
+class ModelProperty(engine.Property):
+    """
+    Refinement of the reference model: after every step the world walked
+    through public accessors must equal the model, and the normalised outcome
+    must be the one the model allows.
+    """
+
+    kinds = ()
+    always = ()
+
+    def start(self, cfg):
+        return ModelState(cfg)
+
+    def next_op(self, rng, cfg, st):
+        if st.pending_setup is None:
+            st.pending_setup = gen.setup_ops(rng, cfg, st.namer)
+        if st.pending_setup:
+            return st.pending_setup.pop(0)
+        for _ in range(20):
+            kind = gen.weighted_choice(rng, cfg["weights"])
+            op = st.gen.draw(rng, st.view, st.namer, kind)
+            if op is not None:
+                return op
+        return None
+
+    def invariants(self, snap):
+        return None
+
+    def outcome_kind(self, op, expected, why):
+        return f"{self.id}/outcome:{op['op']}"
+
+    def state_kind(self, op, expected, diff):
+        if isinstance(expected, M.Raises):
+            return f"{self.id}/failed-call-changed-state:{op['op']}"
+        return f"{self.id}/state-differs-from-model:{op['op']}"
+
+    def execute(self, st, op):
+        # the model is advanced only if the real side executes the operation
+        for key in ("e", "v", "u", "a", "b", "x", "L"):
+            ref = op.get(key)
+            if isinstance(ref, str) and ref not in st.model.objs:
+                return None, None
+        for key in ("links", "universes", "vertices", "ends", "verts"):
+            for ref in op.get(key) or []:
+                if isinstance(ref, str) and ref not in st.model.objs:
+                    return None, None
+        for key, vals in op.get("adj") or []:
+            for ref in [key] + list(vals):
+                if ref not in st.model.objs:
+                    return None, None
+        if "new" in op and op["new"] in st.model.objs:
+            return None, None
+        probe_link_op(st, op)
+        before = st.snap
+        expected = st.model.apply(op)
+        out = st.ex.apply(op)
+        if out is None:
+            raise engine.egsim.HarnessError(f"model ran {op} but the world skipped it")
+        st.stats["op:" + op["op"]] += 1
+        if "exc" in out:
+            st.stats["fault:failing-call"] += 1
+            st.stats["failing-call:" + op["op"] + ":" + out["exc"]] += 1
+        snap = st.refresh()
+        if snap != before:
+            st.mutations += 1
+        v = self.invariants(snap)
+        if v is not None:
+            return out, v
+        why = M.compare_outcome(expected, out)
+        if why is not None:
+            return out, engine.viol(
+                self.outcome_kind(op, expected, why), {"op": op, "why": why}
+            )
+        if snap != st.model.objs:
+            if st.model.alt is not None and snap == st.model.alt:
+                st.model.objs = st.model.alt
+                st.stats["relaxation:edge-moved-to-end-of-assigned-vertex"] += 1
+            else:
+                diff = M.first_difference(snap, st.model.objs)
+                return out, engine.viol(
+                    self.state_kind(op, expected, diff), {"op": op, "diff": diff}
+                )
+        st.model.alt = None
+        return out, None
+
+    def state_hash(self, st):
+        return engine.h64(engine.jdump(st.snap))
+
+    def nontrivial(self, st):
+        return st.mutations >= 3
